@@ -113,6 +113,10 @@ type candidate struct {
 	free []freeRef
 	// single-expression helpers: func f(p…) T { return expr } — expr without function literals
 	exprBody ast.Expr
+	// hoistable: the body can be expanded in place (no defer / recover / goto / own labels, not
+	// variadic); any new function can still be turned into a function literal where it is used
+	// as a value or in a go/defer statement
+	hoistable bool
 }
 
 type freeRef struct {
@@ -134,6 +138,8 @@ type inliner struct {
 	tf    *token.File
 	edits []edit
 	encl  *types.Func
+	// anyCandidate: calleeOf also resolves helpers that cannot be hoisted (for go/defer wrapping)
+	anyCandidate bool
 }
 
 func (il *inliner) off(p token.Pos) int { return il.tf.Offset(p) }
@@ -142,7 +148,7 @@ func (il *inliner) text(n ast.Node) string {
 }
 
 // inlinable reports whether fd's body can be expanded in place.
-func inlinable(fd *ast.FuncDecl) bool {
+func literalisable(fd *ast.FuncDecl) bool {
 	if fd.Body == nil || fd.Type.TypeParams != nil || fd.Name.Name == "init" || fd.Name.Name == "main" {
 		return false
 	}
@@ -156,6 +162,13 @@ func inlinable(fd *ast.FuncDecl) bool {
 				return false // generic receiver
 			}
 		}
+	}
+	return true
+}
+
+func inlinable(fd *ast.FuncDecl) bool {
+	if !literalisable(fd) {
+		return false
 	}
 	if ps := fd.Type.Params.List; len(ps) > 0 {
 		if _, ok := ps[len(ps)-1].Type.(*ast.Ellipsis); ok {
@@ -355,7 +368,7 @@ func (il *inliner) calleeOf(call *ast.CallExpr) (*candidate, string, bool) {
 	case *ast.Ident:
 		fn, _ := info.Uses[f].(*types.Func)
 		c := il.cands[fn]
-		if c == nil || c.fd.Recv != nil {
+		if c == nil || c.fd.Recv != nil || (!c.hoistable && !il.anyCandidate) {
 			return nil, "", false
 		}
 		return c, "", true
@@ -366,7 +379,7 @@ func (il *inliner) calleeOf(call *ast.CallExpr) (*candidate, string, bool) {
 		}
 		fn, _ := sel.Obj().(*types.Func)
 		c := il.cands[fn]
-		if c == nil || c.fd.Recv == nil {
+		if c == nil || c.fd.Recv == nil || (!c.hoistable && !il.anyCandidate) {
 			return nil, "", false
 		}
 		want := fn.Type().(*types.Signature).Recv().Type()
@@ -697,7 +710,9 @@ func (il *inliner) litText(c *candidate, recvAsParam bool, recvExpr string) stri
 // wrapCall rewrites `go h(args)` / `defer h(args)` for a new helper h into the call of a function
 // literal with h's parameters and body (operands are still evaluated at the go/defer statement).
 func (il *inliner) wrapCall(call *ast.CallExpr) bool {
+	il.anyCandidate = true
 	c, recv, ok := il.calleeOf(call)
+	il.anyCandidate = false
 	if !ok || c.obj == il.encl || !il.visibleAt(c, call.Pos()) || call.Ellipsis.IsValid() {
 		return false
 	}
@@ -1101,14 +1116,14 @@ func inlineRound(pkgs []*packages.Package, dir string, round int, overlay map[st
 			}
 			for _, d := range f.Decls {
 				fd, ok := d.(*ast.FuncDecl)
-				if !ok || baselineFuncs[funcKey(p.PkgPath, fd)] || !inlinable(fd) {
+				if !ok || baselineFuncs[funcKey(p.PkgPath, fd)] || !literalisable(fd) {
 					continue
 				}
 				obj, _ := p.TypesInfo.Defs[fd.Name].(*types.Func)
 				if obj == nil {
 					continue
 				}
-				c := &candidate{fd: fd, obj: obj, file: f, src: srcOf(name), tf: p.Fset.File(f.Pos())}
+				c := &candidate{fd: fd, obj: obj, file: f, src: srcOf(name), tf: p.Fset.File(f.Pos()), hoistable: inlinable(fd)}
 				c.free = collectFree(p.TypesInfo, fd)
 				if len(fd.Body.List) == 1 && fd.Type.Results != nil && len(c.fields(fd.Type.Results)) == 1 {
 					if rt, ok := fd.Body.List[0].(*ast.ReturnStmt); ok && len(rt.Results) == 1 {
@@ -1235,6 +1250,13 @@ func dumpFuncs(repo string) {
 			pkg += "/" + filepath.ToSlash(rel)
 		}
 		for _, d := range f.Decls {
+			if gd, ok := d.(*ast.GenDecl); ok && gd.Tok == token.TYPE {
+				for _, sp := range gd.Specs {
+					if ts, ok := sp.(*ast.TypeSpec); ok {
+						keys = append(keys, "type:"+pkg+"."+ts.Name.Name)
+					}
+				}
+			}
 			if fd, ok := d.(*ast.FuncDecl); ok {
 				var ps []string
 				add := func(fl *ast.FieldList) {
